@@ -6,7 +6,7 @@ from collections import Counter
 
 from .. import cfggen, fold, model, runner, statemodel
 from ..model import C
-from ..scen import Scn
+from ..scen import Scn, up
 from .C07 import cfg_dir
 from .C09 import Encoder
 
@@ -107,10 +107,20 @@ def gen_scenario(ctx, k):
     sc.add(*cfggen.bus_lines(cfg, nodes), 'bus brackets 0')
     if rng.random() < 0.4:
         sc.add('bus featecho diff')
-    sc.add(f'start {d} 0', 'quiesce', 'flush', 'quiesce', 'mark after_start')
+    # the command station's answer to the switch-on is late / lost, or reports OFF: what is commanded afterwards does not depend on it
+    cs_policy = rng.choice(['answer', 'answer', 'never', 'na'])
+    if cs_policy != 'answer':
+        sc.add(f'bus policy 62 {cs_policy}')
+    m0 = statemodel.Model(cfg, nodes)
+    settle = []
+    if cs_policy == 'never':
+        # an unanswered request keeps part of the node's response budget until it expires (C03): commands submitted meanwhile may be held.
+        # Time passes and every node says something unrelated, so that whatever was held is transmitted before the transcript is judged
+        settle = ['advance 3'] + [up(model.build_msg(m0.addr[b['id']], 0, C('MSG_BM_CURRENT'), bytes([250, 0]))) for b in cfg['boards'] if m0.connected(b['id'])] + ['quiesce', 'flush', 'quiesce']
+    sc.add(f'start {d} 0', 'quiesce', 'flush', 'quiesce', *settle, 'mark after_start')
     with_reset = rng.random() < 0.5
     if with_reset:
-        sc.add('reset', 'quiesce', 'flush', 'quiesce', 'mark after_reset')
+        sc.add('reset', 'quiesce', 'flush', 'quiesce', *settle, 'mark after_reset')
     sc.add('stop')
     return sc.text(), cfg, nodes, with_reset
 
@@ -144,7 +154,7 @@ def evaluate(ctx, r, cfg, nodes, with_reset, meta):
 
 def run(ctx):
     ctx.rule = ('generated configurations (features and initial values on any subset of boards / accessories / peripherals / train functions) x node trees in which '
-                'any subset of the boards is present, feature echo with the requested or a different value; in half of the runs bidib_send_sys_reset is called '
+                'any subset of the boards is present, feature echo with the requested or a different value, the answer to the track-output switch-on given / lost / reporting OFF; in half of the runs bidib_send_sys_reset is called '
                 'afterwards and its transcript checked the same way. non-trivial = distinct scenario whose expectation contains >=1 feature or initial command')
     ctx.assumptions = ['speed-0 / all-zero CS_DRIVE commands and the library\'s own queries are not constrained', 'encoder of C09 for the expected initial commands']
     jobs = [gen_scenario(ctx, k) for k in range(ctx.n(200, 8000))]
